@@ -187,17 +187,16 @@ SEQ = [
 ]
 
 
-@obligation(tier="quick", timeout=240, shards=[{"first": i} for i in range(len(SEQ))],
-            samples=[{"j": 1, "k": 2}, {"j": 3, "k": 0}],
-            selectors=["j, k: second and third request of the sequence (8 valid documents reusing one variable name with different types, through fragments)", "shard: first request"],
-            bounds="sequences of 3 requests over 8 valid documents on one engine",
+@obligation(tier="quick", timeout=60, shards=[{"first": i, "second": j} for i in range(len(SEQ)) for j in range(len(SEQ))],
+            samples=[{"k": 2}],
+            selectors=["shard: first and second request (8 x 8 valid documents reusing one variable name with different types, through fragments)", "k: unused (each pair runs in its own process so that no earlier exploration path can pollute process-wide state)"],
+            bounds="every ordered pair of 8 valid documents on one engine, one fresh process per pair",
             note="valid documents are accepted whatever was validated before them on the same engine / in the same process, and whatever the other operations of the document declare")
-def c06_history(j: int, k: int) -> bool:
+def c06_history(k: int) -> bool:
     """
     post: _
     """
-    idx = [shard()["first"], pick(j, len(SEQ)), pick(k, len(SEQ))]
-    for i in idx:
+    for i in (shard()["first"], shard()["second"]):
         txt, variables, op = SEQ[i]
         if not run_doc(txt, variables, op):
             return verdict(False)
